@@ -11,9 +11,11 @@
 
      CodeIsConjunction   Decide accepts iff every clause of the code's own conjunction holds
                          (no order dependence, no clause shadowing another),
-     LiteralExceptKnown  Decide = Literal on every state outside two exactly delimited regions
-                         (ValidBefore in [2^63, 2^64-2]; non-canonical encodings the parser
-                         tolerates), and inside them the direction of the difference is fixed,
+     LiteralExceptKnown  Decide = Literal on every state outside the exactly delimited region of
+                         non-canonical encodings the parser tolerates (open findings C41-F6a-d), where
+                         the direction of the difference is fixed (with FixTime = FALSE, the code before
+                         fix 35f0e5b, also outside ValidBefore in [2^63, 2^64-2]: SSHCert_DocTime.cfg),
+     TimeIsLiteral       the validity window is decided exactly as the property states it,
      NonCertIsFallback   a plain key is accepted iff a fallback is configured and accepts it.
 
    Times are indices into the symbolic order
@@ -21,6 +23,8 @@
    The uint64 order is the index order; the int64 view (the code casts) is I64. *)
 EXTENDS Integers, Sequences, FiniteSets, TLC
 
+CONSTANT FixTime \* TRUE: CheckCert compares the validity window as uint64 (the code since fix 35f0e5b, finding C41-T1);
+                 \* FALSE: the earlier int64 casts with sign guards (documentation only, SSHCert_DocTime.cfg)
 CONSTANT Menus   \* set of menus; a menu is a record of sets, one per field, and contributes their product:
   \* uses      subset of {"auth", "host", "cert"}: Authenticate, CheckHostKey, CheckCert called directly
   \* kinds     subset of {"cert", "plain-nil", "plain-ok", "plain-err"}: a certificate, or a plain key with fallback nil/accepting/rejecting
@@ -66,8 +70,10 @@ CheckCertD(k, principal) ==
   IF k.rev = "yes" THEN Rej("revoked")
   ELSE IF \E o \in k.crit : o # "sa" /\ o \notin k.supp THEN Rej("critical")
   ELSE IF Len(k.plist) > 0 /\ ~InList(principal, k.plist) THEN Rej("principal")
-  ELSE IF I64(k.va) < 0 \/ Now < I64(k.va) THEN Rej("notyet")
-  ELSE IF k.vb # Inf /\ (Now >= I64(k.vb) \/ I64(k.vb) < 0) THEN Rej("expired")
+  ELSE IF (IF FixTime THEN Now < k.va                       \* unixNow < 0 || uint64(unixNow) < ValidAfter   (the clock is not negative here)
+           ELSE I64(k.va) < 0 \/ Now < I64(k.va)) THEN Rej("notyet")
+  ELSE IF k.vb # Inf /\ (IF FixTime THEN Now >= k.vb          \* uint64(unixNow) >= ValidBefore
+                        ELSE Now >= I64(k.vb) \/ I64(k.vb) < 0) THEN Rej("expired")
   ELSE IF ~SigCode(k) THEN Rej("signature")
   ELSE Acc
 
@@ -111,7 +117,7 @@ TimeGuarded(k) == k.va <= Now /\ k.va < 5 /\ (k.vb = Inf \/ (Now < k.vb /\ k.vb 
 
 Common(k) == ParseOK(k) /\ k.kind = "cert" /\ TypeRight(k) /\ AuthorityOK(k) /\ AddrClause(k)
              /\ PrincipalOK(k) /\ CritOK(k) /\ NotRevoked(k)
-CodeConj(k) == Common(k) /\ TimeGuarded(k) /\ SigCode(k)
+CodeConj(k) == Common(k) /\ (IF FixTime THEN TimeLiteral(k) ELSE TimeGuarded(k)) /\ SigCode(k)
 Literal(k)  == Common(k) /\ TimeLiteral(k) /\ SigOverReceived(k)
 
 -----------------------------------------------------------------------------
@@ -141,7 +147,7 @@ IsCert == c.kind = "cert"
 
 CodeIsConjunction == (Done /\ IsCert) => (res.acc <=> CodeConj(c))
 
-InTimeGap == c.vb = 5                                     \* ValidBefore in [2^63, 2^64-2]
+InTimeGap == ~FixTime /\ c.vb = 5                         \* (old code only) ValidBefore in [2^63, 2^64-2]
 InEncGap  == c.enc # "canon" /\ ParseOK(c)
 LiteralExceptKnown == (Done /\ IsCert) =>
    /\ (~InTimeGap /\ ~InEncGap) => (res.acc <=> Literal(c))
@@ -153,6 +159,10 @@ LiteralExceptKnown == (Done /\ IsCert) =>
 
 NonCertIsFallback == (Done /\ ~IsCert /\ ParseOK(c)) => (res.acc <=> c.kind = "plain-ok")
 
+(* the validity window as the property states it (uint64, 2^64-1 = infinity); fails for FixTime = FALSE: the
+   expected counterexample of SSHCert_DocTime.cfg documents the repaired defect C41-T1 *)
+TimeIsLiteral == (Done /\ IsCert /\ ~InEncGap) => (res.acc <=> Literal(c))
+
 \* the reported reason is the clause that fails (sanity of the transcription; compared informationally in the binding)
 ReasonSound == (Done /\ IsCert /\ ~res.acc) =>
    CASE res.why = "parse"     -> ~ParseOK(c)
@@ -162,7 +172,7 @@ ReasonSound == (Done /\ IsCert /\ ~res.acc) =>
      [] res.why = "revoked"   -> ~NotRevoked(c)
      [] res.why = "critical"  -> ~CritOK(c)
      [] res.why = "principal" -> ~PrincipalOK(c)
-     [] res.why \in {"notyet", "expired"} -> ~TimeGuarded(c)
+     [] res.why \in {"notyet", "expired"} -> ~(IF FixTime THEN TimeLiteral(c) ELSE TimeGuarded(c))
      [] res.why = "signature" -> ~SigCode(c)
      [] OTHER -> FALSE
 =============================================================================
